@@ -117,6 +117,9 @@ impl MT940 {
             Some(forward_balances)
         };
 
+        // Reject anything left after the last field of the type
+        verify_parser_complete(&parser)?;
+
         Ok(MT940 {
             field_20,
             field_21,
